@@ -25,7 +25,7 @@ def strings_with_content(ctx, toks):
         if t.k == 'id' and t.t == 'vec_string': t.t = 'vec_nstr'
     return toks
 UNITS['tagUnitsMatchRefsUnits_call'] = dict(file=CK, locator=r'bool\s+tagUnitsMatchRefsUnits::operator\s*\(\s*\)\s*\(', cls='tagUnitsMatchRefsUnits', cls_file=CH,
-    classes=['DataArray', 'nstring', 'tagUnitsMatchRefsUnits'], member_types={'units': 'vec_nstr'}, pre_rules=[strings_with_content])
+    classes=['DataArray', 'nstring', 'tagUnitsMatchRefsUnits'], member_types={'units': 'vec_nstr'}, pre_rules=[strings_with_content], calls={'getDimensionsUnits': 'getDimensionsUnits_list'})
 def string_values(ctx, toks):
     """X = "literal";  with X a std::string -> X = nstring_lit("literal");   CALL(...).value_or("literal") on an optional string -> opt_nstr_value_or(CALL(...), nstring_lit("literal"))"""
     from cxx2c import Tok, P, match_open, tokenize, fire
@@ -56,6 +56,43 @@ def units_list(ctx, toks):
     return out
 UNITS['getDimensionsUnits'] = dict(file='src/valid/helper.cpp', locator=r'std::vector<std::string>\s+getDimensionsUnits\s*\(', classes=['DataArray', 'Dimension', 'nstring'], pre_rules=[units_list], bounded_twin=True, ret_default='(vec_string){0}',
     loops={0: '__CPROVER_assigns(_i_dim, gh_du_pushes, units.n, nix_exc)\n__CPROVER_loop_invariant(_i_dim <= rng_.n && gh_du_pushes == _i_dim && units.n == _i_dim && nix_exc == EXC_NONE)\n__CPROVER_decreases(rng_.n - _i_dim)'})
+WALK_TYPES = {'blocks': 'vec_Block', 'dataArrays': 'vec_DataArray', 'dimensions': 'vec_Dimension', 'multiTags': 'vec_MultiTag', 'tags': 'vec_Tag', 'features': 'vec_Feature', 'findSources': 'vec_Source',
+              'findSections': 'vec_Section', 'properties': 'vec_Property', 'asRangeDimension': 'RangeDimension', 'asSetDimension': 'SetDimension', 'asSampledDimension': 'SampledDimension'}
+def walk_types(ctx, toks):
+    """File::validate declares everything with auto: the type of  auto X = [obj.]getter();  is read off the getter (table WALK_TYPES, the declared return types of the
+       nix front end), the loop variable of  for (auto &x : V)  is V's element type, and the overloaded free function valid::validate(x) is named for x's type"""
+    from cxx2c import Tok, P, seq_at, match_close, fire, ExtractError
+    types = {}
+    out = []; i = 0
+    while i < len(toks):
+        t = toks[i]
+        if t.t == 'auto' and toks[i + 1].k == 'id' and toks[i + 2].t == '=':
+            j = i + 3
+            while toks[j].t != ';': j += 1
+            # the getter is the identifier before the last '('
+            k = j - 1
+            while toks[k].t != '(': k -= 1
+            g = toks[k - 1].t
+            if g not in WALK_TYPES: raise ExtractError('auto initialised from unknown getter %s' % g)
+            types[toks[i + 1].t] = WALK_TYPES[g]; ctx.env[toks[i + 1].t] = (WALK_TYPES[g], False)
+            out.append(Tok('id', WALK_TYPES[g], t.ws)); i += 1; fire(ctx, 'auto-from-getter'); continue
+        if t.t == 'for' and seq_at(toks, i + 1, ['(', 'auto', '&']) and toks[i + 5].t == ':' and toks[i + 7].t == ')':
+            v = toks[i + 6].t
+            if v not in types or not types[v].startswith('vec_'): raise ExtractError('range-for over %s of unknown type' % v)
+            elt = types[v][4:]; types[toks[i + 4].t] = elt
+            out.extend([t, toks[i + 1], Tok('id', elt, ''), toks[i + 3], toks[i + 4], toks[i + 5], toks[i + 6], toks[i + 7]]); i += 8; fire(ctx, 'auto-loop-variable'); continue
+        if t.t == 'validate' and toks[i + 1].t == '(' and toks[i + 2].k == 'id' and toks[i + 3].t == ')':
+            x = toks[i + 2].t
+            if x not in types: raise ExtractError('validate(%s): type unknown' % x)
+            k = len(out)
+            while k and out[k - 1].t in ('valid', '::'): k -= 1
+            ws = out[k].ws if k < len(out) else t.ws
+            del out[k:]; out.append(Tok('id', 'validate_' + types[x], ws)); i += 1; fire(ctx, 'overload-by-argument-type'); continue
+        out.append(t); i += 1
+    return out
+UNITS['File_validate'] = dict(file='src/File.cpp', locator=r'valid::Result\s+File::validate\s*\(', cls='File', cls_file='include/nix/File.hpp', pre_rules=[walk_types], inherited_methods=['findSections'],
+    classes=['File', 'Block', 'DataArray', 'Dimension', 'RangeDimension', 'SetDimension', 'SampledDimension', 'MultiTag', 'Tag', 'Feature', 'Source', 'Section', 'Property', 'Result'])
+WALKX = 'Ent gh_items[K_COUNT][W_MAX]; size_t gh_n[K_COUNT]; size_t gh_validated[K_COUNT], gh_val_range, gh_val_set, gh_val_sampled, gh_results_made, gh_concats;\n'
 DUX = 'size_t gh_du_pushes, gh_ndims; Dimension *gh_dims;\n'
 EXTRA = 'const Dimension *gh_dims_base;\n'
 def job(fn, **kw):
@@ -76,7 +113,9 @@ JOBS += [dict(name='getDimensionUnit', bodies=['getDimensionUnit'], enforce=['ge
          dict(name='getDimensionsUnits[bounded]', bodies=['getDimensionsUnits'], enforce=['getDimensionsUnits'], replace=['getDimensionUnit'], includes=['c19_dimunit.h'], extra_c=DUX, loop_contracts=False,
               defines=['NIX_NO_LOOP_CONTRACTS', 'C19_BOUNDED=3'], cbmc_flags=['--unwind', '5', '--unwinding-assertions'], expect_kinds=['postcondition', 'unwind'], timeout=300,
               bounded='at most 3 descriptors, loop unwound completely (twin without loop contract)')]
-SPEC = dict(contracts=['nd.h', 'dv.h', 'c19_valid.h', 'c19_units.h', 'c19_dimunit.h'], stubs=['dataarray.h'], include_order=['nd.h', 'dataarray.h', 'dv.h', 'c19_valid.h'], units=UNITS, jobs=JOBS,
+JOBS.append(dict(name='File_validate[bounded]', bodies=['File_validate'], enforce=['File_validate'], replace=[], includes=['c19_walk.h'], extra_c=WALKX, cbmc_flags=['--unwind', '4', '--unwinding-assertions'],
+                 expect_kinds=['postcondition', 'unwind'], timeout=900, bounded='every container holds at most 2 entries (blocks, arrays, descriptors, tags, multi-tags, features, sources, sections, properties); all loops unwound completely'))
+SPEC = dict(contracts=['nd.h', 'dv.h', 'c19_valid.h', 'c19_units.h', 'c19_dimunit.h', 'c19_walk.h'], stubs=['dataarray.h'], include_order=['nd.h', 'dataarray.h', 'dv.h', 'c19_valid.h'], units=UNITS, jobs=JOBS,
             trusted_base=['CBMC 6.11.0 (C front end, --dfcc, SAT back end)', 'vlib/cxx2c.py idiom map'] + ND_TRUST +
                          ['DataArray / Dimension handles abstracted to the state the predicates read (extent; descriptor kind, tick / label / row count)',
                           'Dimension::index() of the d-th descriptor is d+1 (descriptors numbered 1..n without gaps: property C13)',
